@@ -34,8 +34,10 @@ def known_findings():
         return json.load(f).get('findings', [])
 
 
-def _env():
+def _env(scratch=None):
     env = dict(os.environ)
+    if scratch:
+        env['VERIF_SCRATCH'] = scratch
     env['PYTHONHASHSEED'] = '0'
     env['PYTHONDONTWRITEBYTECODE'] = '1'
     env['PYTHONPATH'] = VERIF
@@ -43,13 +45,13 @@ def _env():
     return env
 
 
-def _run_child(args, timeout):
+def _run_child(args, timeout, scratch=None):
     t0 = time.time()
     try:
         cp = subprocess.run(
             [PYTHON, '-m', 'vf.shard'] + args,
             cwd=VERIF,
-            env=_env(),
+            env=_env(scratch),
             timeout=timeout,
             capture_output=True,
             check=False,
@@ -71,7 +73,7 @@ def run_shard(pid, spec, timeout, tmpdir):
     specfn = os.path.join(tmpdir, f'spec-{spec["index"]}.json')
     with open(specfn, 'wt', encoding='utf-8') as f:
         json.dump(spec, f)
-    rc, so, se, wall = _run_child([pid, '--spec', specfn, '--out', out], timeout)
+    rc, so, se, wall = _run_child([pid, '--spec', specfn, '--out', out], timeout, tmpdir)
     res = None
     if os.path.isfile(out):
         with open(out, 'rt', encoding='utf-8') as f:
@@ -84,7 +86,7 @@ def replay_fresh(pid, witness_file, timeout=600):
     with tempfile.TemporaryDirectory(prefix='vf-replay-') as td:
         out = os.path.join(td, 'replay.json')
         rc, _so, se, _w = _run_child(
-            [pid, '--replay', witness_file, '--out', out], timeout
+            [pid, '--replay', witness_file, '--out', out], timeout, td
         )
         if not os.path.isfile(out):
             return None, f'replay child failed rc={rc}: {se[-2000:]}'
@@ -147,7 +149,7 @@ def main(argv=None):
         s['index'] = i
         s.setdefault('tier', tier)
         s.setdefault('seed', seed)
-    timeout = getattr(mod, 'WATCHDOG', {}).get(tier, 1500 if tier == 'quick' else 7200)
+    timeout = getattr(mod, 'WATCHDOG', {}).get(tier, 600 if tier == 'quick' else 3600)
     results, problems = [], []
     with tempfile.TemporaryDirectory(prefix=f'vf-{pid}-') as td:
         with concurrent.futures.ThreadPoolExecutor(max_workers=args.jobs) as ex:
@@ -254,8 +256,16 @@ def main(argv=None):
         print(f'  {k}: {counters[k]}')
     for k in sorted(distinct):
         print(f'  distinct {k}: {len(distinct[k])}')
-    for mech, k, n in known_hit:
-        print(f'KNOWN-FINDING: property={pid} {mech}: {k.get("what", "")} (seen {n}x)')
+    hit = {m: n for m, _k, n in known_hit}
+    for (kp, mech), k in sorted(known.items()):
+        if kp != pid:
+            continue
+        status = f'seen {hit[mech]}x in this run' if mech in hit else 'not reached by this run\'s random histories'
+        wf = os.path.join(VERIF, k.get('witness', ''))
+        if k.get('witness') and os.path.isfile(wf):
+            ok, _r = replay_fresh(pid, wf)
+            status += '; recorded witness ' + ('still reproduces' if ok else 'NO LONGER reproduces')
+        print(f'KNOWN-FINDING: property={pid} {mech}: {k.get("what", "")} ({status})')
     if confirmed:
         for mech, v, fn in confirmed:
             print(f'  {mech}: {v.get("clause")} :: {str(v.get("detail"))[:400]}')
